@@ -232,3 +232,57 @@ pub open spec fn content(r: GdsRecord) -> (u8, Seq<int>, Seq<u8>, Seq<f64>) {
         _ => (rec_num(r), Seq::<int>::empty(), Seq::<u8>::empty(), Seq::<f64>::empty()),
     }
 }
+
+// ---- decoder-view oracle (pure specification; used by the reader contracts and the stream lemmas) ----
+pub open spec fn de16(a: u8, b: u8) -> u16 { ((a as u16) << 8) | (b as u16) }
+pub open spec fn de32(a: u8, b: u8, c: u8, d: u8) -> u32 { ((a as u32) << 24) | ((b as u32) << 16) | ((c as u32) << 8) | (d as u32) }
+pub open spec fn de64(s: Seq<u8>, o: int) -> u64 { ((de32(s[o], s[o + 1], s[o + 2], s[o + 3]) as u64) << 32) | (de32(s[o + 4], s[o + 5], s[o + 6], s[o + 7]) as u64) }
+/// string payload as read: one trailing NUL (the padding) is dropped
+pub open spec fn strip_nul(b: Seq<u8>) -> Seq<u8> { if b.len() > 0 && b.last() == 0u8 { b.drop_last() } else { b } }
+
+// ---- SPEC: the record table of the manual as a decoder would use it: (record number, data type, payload length) rows ----
+pub open spec fn table_row(num: u8, dt: u8, n: int) -> bool {
+    ||| (dt == 0 && n == 0 && (num == 0x04 || num == 0x07 || num == 0x08 || num == 0x09 || num == 0x0A || num == 0x0B || num == 0x0C || num == 0x11 || num == 0x15 || num == 0x2D || num == 0x38))
+    ||| (dt == 1 && n == 2 && (num == 0x17 || num == 0x1A || num == 0x26))
+    ||| (dt == 2 && n == 2 && (num == 0x00 || num == 0x0D || num == 0x0E || num == 0x16 || num == 0x21 || num == 0x22 || num == 0x2A || num == 0x2B || num == 0x2E || num == 0x32 || num == 0x36 || num == 0x39 || num == 0x3B))
+    ||| (dt == 2 && n == 24 && (num == 0x01 || num == 0x05))
+    ||| (dt == 2 && n == 4 && num == 0x13)
+    ||| (dt == 2 && n == 12 && num == 0x33)
+    ||| (dt == 3 && n == 4 && (num == 0x0F || num == 0x2F || num == 0x30 || num == 0x31))
+    ||| (dt == 3 && num == 0x10)
+    ||| (dt == 5 && n == 16 && num == 0x03)
+    ||| (dt == 5 && n == 8 && (num == 0x1B || num == 0x1C))
+    ||| (dt == 6 && (num == 0x02 || num == 0x06 || num == 0x12 || num == 0x19 || num == 0x1F || num == 0x20 || num == 0x23 || num == 0x2C || num == 0x37 || num == 0x3A))
+}
+pub open spec fn i16_at(b: Seq<u8>, i: int) -> i16 { de16(b[2 * i], b[2 * i + 1]) as i16 }
+pub open spec fn i32_at(b: Seq<u8>, i: int) -> i32 { de32(b[4 * i], b[4 * i + 1], b[4 * i + 2], b[4 * i + 3]) as i32 }
+/// `rec` is the content of a record whose payload bytes are `b` (decoder view, per data type)
+pub open spec fn payload_matches(rec: GdsRecord, b: Seq<u8>) -> bool {
+    match rec {
+        GdsRecord::EndLib | GdsRecord::EndStruct | GdsRecord::Boundary | GdsRecord::Path | GdsRecord::StructRef | GdsRecord::ArrayRef | GdsRecord::Text
+        | GdsRecord::EndElement | GdsRecord::Node | GdsRecord::Box | GdsRecord::EndMasks => b.len() == 0,
+        GdsRecord::Presentation(x, y) | GdsRecord::Strans(x, y) | GdsRecord::ElemFlags(x, y) => b.len() == 2 && x == b[0] && y == b[1],
+        GdsRecord::Header { version: d } | GdsRecord::Layer(d) | GdsRecord::DataType(d) | GdsRecord::TextType(d) | GdsRecord::PathType(d) | GdsRecord::Generations(d)
+        | GdsRecord::Nodetype(d) | GdsRecord::PropAttr(d) | GdsRecord::BoxType(d) | GdsRecord::TapeNum(d) | GdsRecord::Format(d) | GdsRecord::LibDirSize(d)
+        | GdsRecord::LibSecur(d) => b.len() == 2 && d == i16_at(b, 0),
+        GdsRecord::BgnLib { dates: d } => b.len() == 24 && forall|i: int| 0 <= i < 12 ==> #[trigger] d@[i] == i16_at(b, i),
+        GdsRecord::BgnStruct { dates: d } => b.len() == 24 && forall|i: int| 0 <= i < 12 ==> #[trigger] d@[i] == i16_at(b, i),
+        GdsRecord::TapeCode(d) => b.len() == 12 && forall|i: int| 0 <= i < 6 ==> #[trigger] d@[i] == i16_at(b, i),
+        GdsRecord::ColRow { cols, rows } => b.len() == 4 && cols == i16_at(b, 0) && rows == i16_at(b, 1),
+        GdsRecord::Width(d) | GdsRecord::Plex(d) | GdsRecord::BeginExtn(d) | GdsRecord::EndExtn(d) => b.len() == 4 && d == i32_at(b, 0),
+        GdsRecord::Xy(v) => v@.len() == b.len() / 4 && forall|i: int| 0 <= i < v@.len() ==> #[trigger] v@[i] == i32_at(b, i),
+        GdsRecord::Mag(x) | GdsRecord::Angle(x) => b.len() == 8 && x == gds_dec(de64(b, 0)),
+        GdsRecord::Units(x, y) => b.len() == 16 && x == gds_dec(de64(b, 0)) && y == gds_dec(de64(b, 8)),
+        GdsRecord::LibName(s) | GdsRecord::StructName(s) | GdsRecord::StructRefName(s) | GdsRecord::String(s) | GdsRecord::RefLibs(s) | GdsRecord::Fonts(s)
+        | GdsRecord::AttrTable(s) | GdsRecord::PropValue(s) | GdsRecord::Mask(s) | GdsRecord::SrfName(s) => string_bytes(&s) == strip_nul(b),
+    }
+}
+// ---- SPEC: which headers the format allows (appendix A: record numbers not used / unreleased / internal are invalid) ----
+pub open spec fn valid_rec_num(n: u8) -> bool {
+    n <= 0x3B && n != 0x14 && n != 0x18 && n != 0x1D && n != 0x1E && n != 0x24 && n != 0x25 && n != 0x27 && n != 0x28 && n != 0x29 && n != 0x34 && n != 0x35
+}
+pub open spec fn header_ok(b: Seq<u8>) -> bool {
+    b.len() >= 4 && de16(b[0], b[1]) >= 4 && de16(b[0], b[1]) % 2 == 0 && valid_rec_num(b[2]) && b[3] <= 6
+}
+
+
